@@ -519,8 +519,47 @@ def rule_class(R):
     R.ob("class/selector", ok, "matches_priority(true) means in-progress, matches_priority(false) means fresh", where=mp.span)
 
 
+def clause_steps_gated(R, prefix):
+    """every step next_step can hand out was selected by the pass classifier (`matches_priority(entry.state, pass)`): a
+    queue that is served outside the two-pass scheme lets a fresh packet start while another one is half written --
+    the byte stream would interleave two packets"""
+    f = R.f
+    ns = roles.method(f, OUTBOUND, "next_step")
+    st = "mqtt_client::outbound::SendState"
+    mp = roles.method(f, st, "matches_priority")
+    gates = []
+    for c in outq.calls_to(f, ns, mp):
+        for si in ns.result_switches(lambda x, c=c: peel(x)[0] == "call" and peel(x)[1] == c.bb):
+            if si["edges"].get(True) is not None:
+                gates.append((c, (si["bb"], si["edges"][True])))
+    n = 0
+    for bb, j, s in ns.assigns():
+        rv = s["rv"]
+        if bb not in ns.reachable or "agg" not in rv or not (rv["agg"].get("adt") or "").endswith("OutboundStep"):
+            continue
+        kind = rv["agg"]["variant"]
+        n += 1
+        ok = False
+        for c, edge in gates:
+            if ns.must_pass([0], [bb], via_edges=[edge])[0]:
+                # the classified state is the state of the entry the step is built from
+                stt = peel(ns.operand_term(c.args[0]))
+                t = ns.rvalue_term(rv)
+                inner = peel(t[5][0]) if t[5] else None
+                fl = dict(zip(inner[4], inner[5])) if inner is not None and inner[0] == "agg" else {}
+                ok = "state" in fl and same_shape(peel(fl["state"]), stt)
+                if ok:
+                    break
+        R.ob("%s/%s" % (prefix, kind), ok,
+             "an OutboundStep::%s is handed out only for an entry that the pass classifier selected (matches_priority on that "
+             "entry's state): in-progress packets of every queue are completed before any fresh packet is started" % kind,
+             where=s["span"])
+    R.floor(prefix, n, 3, "OutboundStep constructions in next_step")
+
+
 def rule_priority(R):
     f = R.f
+    clause_steps_gated(R, "priority/gated")
     ns = roles.method(f, OUTBOUND, "next_step")
     arr = None
     for bb, j, s in ns.assigns():
@@ -546,7 +585,15 @@ def rule_priority(R):
              "the classifier receives the pass flag of the outer loop", where=c.span)
 
 
+def rule_arena_order(R):
+    from .c02 import clause_order
+    clause_order(R, "replay/arena-order", ("retained",),
+                 " -- retained packets are replayed from the arena after compaction, which copies them down in list order: a "
+                 "list that is not in arena-offset order makes compaction overwrite packets that are still to be resent")
+
+
 def run(R):
+    R.rule("arena-order", rule_arena_order)
     R.rule("drain", rule_drain)
     R.rule("flags", rule_flags)
     R.rule("replay", rule_replay)
